@@ -140,7 +140,8 @@ def operands(rng):
     return pool
 
 
-EXPONENTS = [-3, -2, -1, 0, 1, 2, 3, 4, 2.0, -1.0, 0.0, 3.0, 0.5, -1.5, 2.000001, 1j, 2 + 0j, 1 + 1j]
+EXPONENTS = [-3, -2, -1, 0, 1, 2, 3, 4, 2.0, -1.0, 0.0, 3.0, 0.5, -1.5, 2.000001, 1j, 2 + 0j, 1 + 1j,
+             0.3 / 0.1, 0.29 * 100, 3.0000000001, 1.9999999999, -(0.3 / 0.1), 1e-12]
 # one-element arrays are treated as numbers by the library (R8): the negative-power switch must still apply to them
 ONE_ELEMENT_EXPONENTS = [np.array(-1), np.array([-2]), np.array([[-1.0]]), np.array([2]), np.array(3.0)]
 
@@ -385,13 +386,19 @@ def run_grader(ctx):
     for i in range(ctx.n(800, 8000)):
         negpow = (i % 3 == 0)
         ctx.seed_case('negpow', i)
-        g = MatrixGrader(answers='A', variables=['A'], sample_from={'A': RealMatrices(shape=[2, 2])},
+        extra_vars, extra_sf = [], {}
+        if i % 2 == 0:
+            # other samplers evaluated inside the grader's negative-power block must not switch the powers back on
+            from mitxgraders import DependentSampler
+            extra_vars = ['c', 'B']
+            extra_sf = {'c': DependentSampler(formula='2+1'), 'B': DependentSampler(formula='A*A')}
+        g = MatrixGrader(answers='A', variables=['A'] + extra_vars, sample_from=dict({'A': RealMatrices(shape=[2, 2])}, **extra_sf),
                          negative_powers=negpow, max_array_dim=2)
         sub = rng.choice(['(A^-1)^-1', 'A^-1*A*A', 'A^(-1)*A^2', 'A*A^-2*A^2', '[[1,2],[3,4]]^-1*[[1,2],[3,4]]*A',
                           'A^[-1]*A*A', 'A^-[1]*A^2', 'A^[[-1]]*A*A', 'A^(0-1)*A^2', 'A^(-[1]*[1])*A^2'])
         out = lib.call(ctx, g, None, sub)
         ctx.ev()
-        wit = {'negative_powers': negpow, 'submission': sub, 'outcome': out.brief()}
+        wit = {'negative_powers': negpow, 'submission': sub, 'dependent_samplers_configured': bool(extra_vars), 'outcome': out.brief()}
         if negpow:
             ctx.count('negpow_enabled_calls')
             if not out.returned or out.value['ok'] is not True:
